@@ -162,6 +162,25 @@ class Env:
         return self.eolib
 
 
+def load_fixed_tree(env, key, tree_fn, check_id):
+    """Generate + import a check's own (valid, hand-written) spec tree once per process.  Returns None, or the
+    violation to report when the code under test cannot produce an importable package for it: the check cannot
+    observe its property at all then (whether the generator is at fault is C18's question; the alarm is raised
+    here as well so that it carries a VIOLATION line rather than a harness error)."""
+    if env.cache.get(key):
+        return None
+    try:
+        env.load_tree(tree_fn())
+    except BaseException as e:  # noqa
+        import re as _re
+        text = _re.sub(r"/[^ '\"]*eolib-verif-[^ '\"]*", "<scratch>", f"{type(e).__name__}: {e}")[:300]
+        return {"kind": "tree-unusable", "signature": f"{check_id}|tree-unusable|{getattr(env, 'load_stage', None) or 'generate'}",
+                "detail": f"the check's own specification tree (valid: accepted and importable on the unchanged code) could not be "
+                          f"{'imported' if getattr(env, 'load_stage', None) == 'import' else 'generated'}: {text}", "step": 0}
+    env.cache[key] = True
+    return None
+
+
 # --------------------------------------------------------------------------------------------
 # known findings
 
